@@ -88,6 +88,11 @@ def trio(ck):
             ck.oblige('C18.trio.UpdateConfig.valid', p, fee_triple_bad(prog, fld(prog, p.world.storage['config'], 'pool_fees')), 'stored pool fees stay valid')
         elif p.err: reject_no_write(ck, 'C18.trio.UpdateConfig.reject_no_write', p)
     ck.require(n >= 1, 'trio update: no Ok path')
+    # the amplification ramp path of UpdateConfig from an arbitrary stored ramp (also one still in progress): bounds of the accepted target
+    import c04 as C04
+    it0 = Interp(prog, Ctx(), World())
+    C04.MIN_RAMP = it0.const('contract::MIN_RAMP_BLOCKS', prog.get('stableswap_3pool::commands::update_config'))
+    C04.ramp_update(ck, prog, only_bounds=True)
 
 
 # ---- vault -----------------------------------------------------------------------------------------------
